@@ -52,7 +52,7 @@ theorem null_binary (c : Ctx) (hign : c.ign = true) (op : String) (hop : op ∈ 
   rcases hop with rfl | rfl | rfl | rfl | rfl <;>
   · simp [eval, evalDoc, classify, arithmeticOps, unaryArithOps, binaryArithOps, mode, wholeOps,
       dateOps, datePartOps, groupingOps, evalOp, har, listOps, comparisonOps, usesParseMany, hign,
-      hl, applyList, hb', bind, Except.bind, Except.map]
+      nullOnMissing, usesParseOrNothing, hl, applyList, hb', bind, Except.bind, Except.map]
 
 /-- the loop over the operands of `$add` / `$multiply`: a null after numbers ends it with null -/
 theorem checkNums_null (pre post : List Val) (hpre : ∀ v ∈ pre, (toPyNum v).isSome = true) :
@@ -68,6 +68,21 @@ theorem checkNums_null (pre post : List Val) (hpre : ∀ v ∈ pre, (toPyNum v).
       cases v <;> simp [toPyNum] at hp <;>
         simp [checkNums, toPyNum, ih', bind, Except.bind, pure, Except.pure]
 
+/-- the same for the loop of `$add`, whether or not a date has been set aside -/
+theorem checkAdd_null (pre post : List Val) (d : Option Int)
+    (hpre : ∀ v ∈ pre, (toPyNum v).isSome = true) :
+    checkAdd (pre ++ .null :: post) d = .ok none := by
+  induction pre with
+  | nil => cases d <;> simp [checkAdd]
+  | cons v pre ih =>
+    have hv := hpre v (by simp)
+    have ih' := ih (fun w hw => hpre w (by simp [hw]))
+    cases hp : toPyNum v with
+    | none => simp [hp] at hv
+    | some n =>
+      cases v <;> simp [toPyNum] at hp <;>
+        simp [checkAdd, toPyNum, ih', bind, Except.bind, pure, Except.pure]
+
 /-- `$add` / `$multiply`: when the first operand value that is not a number is null (a missing
     operand counts as null), the result is null -/
 theorem null_nary (c : Ctx) (op : String) (hop : op = "$add" ∨ op = "$multiply") (xs : List Val)
@@ -76,11 +91,13 @@ theorem null_nary (c : Ctx) (op : String) (hop : op = "$add" ∨ op = "$multiply
     eval c (.doc [(op, .arr xs)]) = .ok (some .null) := by
   have hne : (pre ++ Val.null :: post).isEmpty = false := by cases pre <;> simp
   have hn : naryArith op (pre ++ .null :: post) = .ok .null := by
-    simp [naryArith, hne, checkNums_null pre post hpre, bind, Except.bind, pure, Except.pure]
+    rcases hop with rfl | rfl <;>
+      simp [naryArith, hne, checkNums_null pre post hpre, checkAdd_null pre post none hpre, bind,
+        Except.bind, pure, Except.pure]
   rcases hop with rfl | rfl <;>
   · simp [eval, evalDoc, classify, arithmeticOps, unaryArithOps, binaryArithOps, mode, wholeOps,
       dateOps, datePartOps, groupingOps, evalOp, arityErr, listOps, comparisonOps, usesParseMany,
-      hl, applyList, hn, bind, Except.bind, Except.map]
+      nullOnMissing, usesParseOrNothing, hl, applyList, hn, bind, Except.bind, Except.map]
 
 /-- `parse_many` under `ignore_missing_keys`: a missing operand is read as null -/
 theorem evalList_missing_is_null (c : Ctx) (x : Val) (r : List Val) (vs : List Val)
